@@ -14,7 +14,11 @@ Notation pystr := (list Z) (only parsing).     (* UTF-8 bytes; character-level o
 Inductive exn :=
 | ValueError | SUITError | GeneratorError | OverflowError | SignerError
 | IndexError | TypeError | KeyError | AttributeError | StructError | NotImplementedError
-| RecursionLimit.
+| RecursionLimit
+| OSErr                 (* FileNotFoundError and other OSError *)
+| OtherError            (* a bare Exception(...) raised by the tool *)
+| Unsupported           (* the model declines: input outside the modelled fragment (never an answer about the code) *)
+| Need (kind : list Z) (args : list (list Z)).   (* an external function (hash, uuid5, json) whose value the harness must supply *)
 
 Definition exn_eqb (a b : exn) : bool :=
   match a, b with
@@ -22,7 +26,17 @@ Definition exn_eqb (a b : exn) : bool :=
   | OverflowError, OverflowError | SignerError, SignerError | IndexError, IndexError
   | TypeError, TypeError | KeyError, KeyError | AttributeError, AttributeError
   | StructError, StructError | NotImplementedError, NotImplementedError
-  | RecursionLimit, RecursionLimit => true
+  | RecursionLimit, RecursionLimit | OSErr, OSErr | OtherError, OtherError | Unsupported, Unsupported => true
+  | Need k a, Need k' a' =>
+      (fix leq (x y : list Z) : bool := match x, y with [], [] => true | p :: x', q :: y' => (p =? q) && leq x' y' | _, _ => false end) k k'
+      && (fix lleq (x y : list (list Z)) : bool :=
+            match x, y with
+            | [], [] => true
+            | p :: x', q :: y' =>
+                (fix leq (x y : list Z) : bool := match x, y with [], [] => true | p :: x', q :: y' => (p =? q) && leq x' y' | _, _ => false end) p q
+                && lleq x' y'
+            | _, _ => false
+            end) a a'
   | _, _ => false
   end.
 
